@@ -118,6 +118,12 @@ def run(sc):
                 valid = rng.choice((b'', b'260101120000048-', b'260101120000000z', b'000000010000000R', b'99999999999999999'))
                 body = b'\x00' * 7 + b'\x00' + b'\x00\x00' + sched + b'\x00' + valid + b'\x00' + b'\x00\x00' + b'\x00\x00' + b'\x02hi'
                 conn.feed(pdu(5, 0, q, body))
+            elif kind == 'huge':
+                # the largest deliver_sm SMPP allows for: a message_payload of 65535 octets and a kilobyte of further parameters
+                extra = struct.pack('!HH', 0x0424, 65535) + b'p' * 65535 + b''.join(
+                    struct.pack('!HH', 0x1400 + j, 200) + b'v' * 200 for j in range(6))
+                body = b'\x00' * 7 + b'\x00' + b'\x00' * 6 + b'\x00\x00' + b'\x00' + extra
+                conn.feed(pdu(5, 0, q, body))
             elif kind == 'receipt':
                 # delivery receipts as SMSCs write them: well-formed, without dates, dates with seconds, words for numbers,
                 # fields the library does not know - each is a request and must be answered (response or nack) exactly once
@@ -138,9 +144,11 @@ def run(sc):
             elif kind == 'burst':
                 conn.feed(pdu(5, 0, q, deliver_body()) + pdu(0x15, 0, q + 1) + pdu(5, 0, q + 2, deliver_body(b'yo')))
                 seqs['n'] += 2
+        for kind_f, t_f in sc.get('force_in', ()):
+            s.at(t_f, inbound, kind_f)
         for _ in range(sc['n_in']):
             s.at(round(rng.uniform(0.1, sc['horizon']), 3) + 0.0001,
-                 inbound, rng.choice(('deliver', 'deliver', 'enq', 'unsupported', 'bad', 'seg', 'stray-resp', 'burst', 'unbind', 'receipt', 'receipt', 'times', 'times')))
+                 inbound, rng.choice(('deliver', 'deliver', 'enq', 'unsupported', 'bad', 'seg', 'stray-resp', 'burst', 'unbind', 'receipt', 'receipt', 'times', 'times', 'huge')))
         # back-pressure episodes: the peer stops reading for a while, so drain() really suspends
         for _ in range(sc.get('stalls', 0)):
             t0 = round(rng.uniform(0.5, sc['horizon']), 3) + 0.0004
@@ -265,6 +273,22 @@ def predicate(sc, ev, state):
                 if seq not in lst:
                     return 'response %08x with sequence number %d answers no request delivered on connection %d' % (cmd, seq, e[2])
                 lst.remove(seq)
+    # every request answered: in an undisturbed session (no scripted drop or stall, the peer never unbinds) every request
+    # with a recognised header that was delivered well before stop() has its response by the end
+    if not sc['drops'] and not sc.get('stalls') and sc['hook'] in ('none', 'sending'):      # (a slow received hook builds a backlog)
+        fed_req = [(e[0], e[2], struct.unpack('!I', p[4:8])[0], struct.unpack('!I', p[12:16])[0])
+                   for e in ev if e[1] == 'fed' for p in split_pdus(e[3])
+                   if recognised(p) and struct.unpack('!I', p[4:8])[0] < 0x80000000]
+        bound_at = {}
+        for e in ev:
+            if e[1] == 'fed':
+                for p in split_pdus(e[3]):
+                    if len(p) >= 16 and struct.unpack('!II', p[4:12]) in ((0x80000001, 0), (0x80000002, 0), (0x80000009, 0)):
+                        bound_at.setdefault(e[2], e[0])
+        if not any(cmd == 6 for _t, _c, cmd, _q in fed_req):
+            for t, c, cmd, seq in fed_req:
+                if c in bound_at and t > bound_at[c] and t < sc['stop_at'] - 5.0 and seq in open_req.get(c, []):
+                    return 'request %08x with sequence number %d, delivered at %.3f on connection %d, was never answered' % (cmd, seq, t, c)
     # received exactly once: every fed recognised PDU that was answered or followed by later traffic reached the hook once
     fed = [p for e in ev if e[1] == 'fed' for p in split_pdus(e[3]) if recognised(p)]
     got = [e[3] for e in ev if e[1] == 'received']
@@ -297,6 +321,15 @@ def generate(rng, tier):
     thorough = tier == 'thorough'
     for _ in range(600 if thorough else 150):
         yield case_of(scenario(rng))
+    # directed: an undisturbed session (no drops, no stalls, hooks that return at once) in which the peer sends one request of
+    # every kind, the largest PDUs included, early enough for every answer to be due
+    kinds = ('deliver', 'enq', 'unsupported', 'bad', 'seg', 'receipt', 'times', 'huge', 'burst', 'huge', 'receipt', 'times')
+    for mode in ('TRANSCEIVER', 'RECEIVER', 'TRANSMITTER'):
+        for rep in range(3 if thorough else 1):
+            sc = dict(stalls=0, mode=mode, horizon=40.0, hook=rng.choice(('none', 'sending')), n_msgs=rng.randrange(0, 3), n_in=0,
+                      drops=0, reject_first=False, stop_at=30.0003, seed=rng.randrange(10 ** 9),
+                      force_in=[[k, round(1.0 + 1.3 * i, 3) + 0.0001] for i, k in enumerate(kinds)])
+            yield case_of(sc)
 
 
 def replay(inp):
